@@ -292,6 +292,199 @@ def wheel_hyp_stats(c, impl):
     return st
 
 
+# ------------------------------------------------------------------ service (deterministic, single-stepped loop thread)
+MS = 1000000
+
+
+def gen_svc_case(rng, idx):
+    """ops for harness/c08_svc.cpp: the real TimerService with its loop thread parked in epoll_wait between `wake`s"""
+    style = rng.below(6)     # 0-2 mixed, 3 heap stress (many timers, ties), 4 gates + concurrent cancel/schedule, 5 small limits
+    if style == 5:
+        lim = (rng.range(1, 4), rng.range(0, 2), rng.choice([50, 5, 86400000]))
+    else:
+        lim = (10000, 1000, 86400000)
+    ops = ["reset %d %d %d" % lim]
+    clk = 0
+    issued = 0
+    blocked_possible = False
+    n = rng.range(6, 40)
+    for _ in range(n):
+        k = rng.below(100)
+        if style == 3 and k < 55:
+            k = 0
+        if k < 34:
+            base = clk + rng.choice([0, 0, MS, 2 * MS, 3 * MS, 5 * MS, rng.range(-3, 30) * MS, rng.range(0, 20 * MS), -MS, 7 * MS + 1, 3 * MS - 1])
+            if style == 5 and rng.chance(1, 4):
+                base = clk + rng.choice([49, 50, 51, 5, 6]) * MS
+            kind = "n"
+            j = rng.below(12)
+            if (style == 4 and j < 5) or j == 0:
+                kind = "g"
+                blocked_possible = True
+            elif j == 1 and issued:
+                kind = "x%d" % rng.range(1, issued + 1)
+            ops.append("at %d %s" % (base, kind))
+            issued += 1
+        elif k < 44:
+            iv = rng.choice([1, 2, 3, 5, 7, 10]) * MS + rng.choice([0, 0, 0, 1, 500000])
+            kind = "n"
+            j = rng.below(10)
+            if j == 0 or (style == 4 and j < 3):
+                kind = "g"
+                blocked_possible = True
+            elif j == 1 and issued:
+                kind = "x%d" % rng.range(1, issued + 1)
+            ops.append("per %d %s" % (iv, kind))
+            issued += 1
+        elif k < 60:
+            ops.append("cancel %d" % (rng.range(1, issued) if issued and rng.chance(9, 10) else rng.range(0, issued + 2)))
+        elif k < 85:
+            clk += rng.choice([0, MS, MS, 2 * MS, 3 * MS, 5 * MS, rng.range(0, 12 * MS), 1, MS - 1])
+            ops.append("clk %d" % clk)
+            ops.append("wake")
+        elif k < 93:
+            ops.append("release")
+        elif k < 96:
+            ops.append("inflight")
+        else:
+            ops.append("wake")
+    # wind down: open every gate, cancel the periodic timers, let everything that is due fire
+    for _ in range(6):
+        ops.append("release")
+    ops.append("inflight")
+    return {"cat": "svc", "ops": ops, "idx": idx, "style": style, "limits": list(lim), "kind": "svc"}
+
+
+def gen_svc_winddown(c, impl_so_far=None):
+    return c
+
+
+def svc_boundary_cases():
+    cs = []
+    # F34: periodic invocation collected behind a gate handler, cancelled (true) while it waits, must not start afterwards
+    cs.append({"cat": "svc-F34", "kind": "svc", "limits": [10000, 1000, 86400000],
+               "ops": ["reset 10000 1000 86400000", "at 5000000 g", "per 5000000 n", "clk 5000000", "wake", "cancel 2", "release", "clk 20000000", "wake", "inflight"]})
+    # the same window reached from inside the loop thread: a handler cancels a periodic timer collected in the same batch
+    cs.append({"cat": "svc-F34", "kind": "svc", "limits": [10000, 1000, 86400000],
+               "ops": ["reset 10000 1000 86400000", "at 3000000 x2", "per 3000000 n", "clk 3000000", "wake", "clk 9000000", "wake", "inflight"]})
+    # cancel versus collect for a one-shot: collected behind a gate => cancel answers false and the handler runs once
+    cs.append({"cat": "svc-cancel-collect", "kind": "svc", "limits": [10000, 1000, 86400000],
+               "ops": ["reset 10000 1000 86400000", "at 1000000 g", "at 1000000 n", "at 2000000 n", "clk 1000000", "wake", "cancel 2", "cancel 3", "release", "clk 5000000", "wake", "inflight"]})
+    # heap order with ties and many entries
+    ops = ["reset 10000 1000 86400000"]
+    for i in range(40):
+        ops.append("at %d n" % (((i * 7919) % 13) * MS))
+    for t in range(0, 14):
+        ops += ["clk %d" % (t * MS), "wake"]
+    ops.append("inflight")
+    cs.append({"cat": "svc-heap", "kind": "svc", "limits": [10000, 1000, 86400000], "ops": ops})
+    # periodic catch-up: the loop wakes late, several firings are collected in one pass
+    cs.append({"cat": "svc-periodic", "kind": "svc", "limits": [10000, 1000, 86400000],
+               "ops": ["reset 10000 1000 86400000", "per 2000000 n", "per 3000000 n", "clk 1999999", "wake", "clk 2000000", "wake", "clk 13000000", "wake", "cancel 1", "clk 20000000", "wake", "cancel 2", "inflight"]})
+    return cs
+
+
+def monitor_svc(c, impl):
+    """safety monitor on the implementation's own answers (never early / at most once / not after a successful cancel /
+    cancel=false => runs exactly once / nothing lost), knowing only the generated ops"""
+    bad = []
+    clk = 0
+    info = {}          # id -> dict(periodic, tp | (t0, iv), kind)
+    starts = {}        # id -> number of starts
+    cancelled_ok = {}  # id -> True once cancel answered true
+    cancel_false = set()
+    blocked = False
+    limits = c.get("limits", [10000, 1000, 86400000])
+
+    def on_events(evs, now):
+        nonlocal blocked
+        for e in evs:
+            if e[0] == "s":
+                i = int(e[1:])
+                if i not in info:
+                    bad.append("S1: handler of unknown id %d starts" % i)
+                    continue
+                starts[i] = starts.get(i, 0) + 1
+                d = info[i]
+                if cancelled_ok.get(i):
+                    bad.append("S3: handler of timer %d starts after cancel(%d) returned true" % (i, i))
+                if d["periodic"]:
+                    due = d["t0"] + starts[i] * d["iv"]
+                    if now < due:
+                        bad.append("S2: firing %d of periodic timer %d starts at %d, before %d = schedule time + %d intervals" % (starts[i], i, now, due, starts[i]))
+                else:
+                    if starts[i] > 1:
+                        bad.append("S1: one-shot handler %d starts %d times" % (i, starts[i]))
+                    if now < d["tp"]:
+                        bad.append("S2: one-shot timer %d starts at %d, before its time point %d" % (i, now, d["tp"]))
+                blocked = d["kind"] == "g"
+            elif e[0] == "e":
+                blocked = False
+            elif e[0] == "c":
+                j, r = e[1:].split("=")
+                note_cancel(int(j), r == "1")
+
+    def note_cancel(i, ok):
+        if ok:
+            if i not in info:
+                bad.append("S3: cancel(%d) = true for an id that was never issued" % i)
+            elif cancelled_ok.get(i):
+                bad.append("S3: cancel(%d) = true twice" % i)
+            elif not info[i]["periodic"] and starts.get(i, 0) > 0:
+                bad.append("S3: cancel(%d) = true after the one-shot handler already started" % i)
+            cancelled_ok[i] = True
+        elif i in info and not cancelled_ok.get(i):
+            cancel_false.add(i)
+
+    for op, ans in zip(c["ops"], impl):
+        t = op.split()
+        if ans.startswith("crash:") or ans.startswith("throw") or ans == "hang":
+            bad.append("S0: the service crashes/throws/hangs: %s -> %s" % (op, ans))
+            return bad
+        if ans in ("bad-op", "busy", "idle"):
+            continue
+        head = ans.split()[0]
+        if t[0] == "clk":
+            clk = int(t[1])
+        elif t[0] in ("at", "per"):
+            i = int(head)
+            if i != 0:
+                if i in info:
+                    bad.append("S1: id %d issued twice" % i)
+                if t[0] == "at":
+                    info[i] = {"periodic": False, "tp": int(t[1]), "kind": t[2][0]}
+                else:
+                    info[i] = {"periodic": True, "t0": clk, "iv": int(t[1]), "kind": t[2][0]}
+        elif t[0] == "cancel":
+            note_cancel(int(t[1]), head == "1")
+        elif t[0] in ("wake", "release"):
+            evs = head[3:].split(",") if head.startswith("ev=") and head != "ev=-" else []
+            on_events(evs, clk)
+    # end of case (all gates were opened): cancel=false on the running service => the one-shot handler ran exactly once
+    if not blocked:
+        for i in cancel_false:
+            if not info[i]["periodic"] and not cancelled_ok.get(i) and starts.get(i, 0) != 1:
+                bad.append("S3: cancel(%d) = false on a running service but the handler ran %d times (must be exactly once)" % (i, starts.get(i, 0)))
+        # nothing silently lost: a one-shot timer that is due at the last wake and was not cancelled has started
+        last_wake_clk = None
+        clk2 = 0
+        for op in c["ops"]:
+            t = op.split()
+            if t[0] == "clk":
+                clk2 = int(t[1])
+            elif t[0] == "wake":
+                last_wake_clk = clk2
+        if last_wake_clk is not None and "busy" not in impl:
+            for i, d in info.items():
+                if not d["periodic"] and not cancelled_ok.get(i) and d["tp"] <= last_wake_clk and starts.get(i, 0) == 0:
+                    # scheduled after the last wake? then it is still legitimately pending
+                    sched_idx = [k for k, (o, a) in enumerate(zip(c["ops"], impl)) if o.startswith("at ") and a.split()[0] == str(i)][0]
+                    wake_idx = max(k for k, o in enumerate(c["ops"]) if o == "wake")
+                    if sched_idx < wake_idx:
+                        bad.append("S5: one-shot timer %d (time point %d) was due at the last collect (%d) and never started: silently lost" % (i, d["tp"], last_wake_clk))
+    return bad
+
+
 # ------------------------------------------------------------------ run
 def run(ctx: Ctx):
     quick = ctx.tier == "quick"
